@@ -176,7 +176,7 @@ M('C11', 'c11-newest-first', [(CTL, "        return (list(reversed(acc)), len(ac
 M('C11', 'c11-cap-keeps-first', [(CTL, "        for message in reversed(messages):", "        for message in messages:"), (CTL, "        return (list(reversed(acc)), len(acc)", "        return (list(acc), len(acc)")], 'C11.3')
 M('C11', 'c11-cap-off-by-one', [(CTL, "if cap and len(acc) >= cap:", "if cap and len(acc) > cap:")], 'C11.4')
 V('C11', 'c11v-cap-zero-implicit', [(CTL, "        if cap == 0:\n            cap = None\n", "")])
-M('C11', 'c11-cap-zero-stops', [(CTL, "        if cap == 0:\n            cap = None\n", ""), (CTL, "if cap and len(acc) >= cap:", "if cap is not None and len(acc) >= cap:")], 'C11.4')
+# (cap 0 is outside the property's quantifier N >= 1: no mutant for it)
 M('C11', 'c11-join-with-filter', [(CTL, "            m = self.parse_and_join(arg, None)", "            m = self.parse_and_join(arg, self.display_matcher)")], 'C11.6')
 M('C11', 'c11-list-sets-filter', [(CTL, "            m = self.parse_and_join(arg, None)\n", "            m = self.parse_and_join(arg, None)\n            self.display_matcher = m\n")], 'C11.1')
 M('C11', 'c11-count-from-all', [(CTL, "len(messages) - len(acc) - didnt_match)", "len(self.all_messages) - len(acc) - didnt_match)")], 'C11.5')
